@@ -77,7 +77,7 @@ Definition mk (f : fname) (item new : Z) (p : predfn) (s1 s2 : seqin) (st en : o
   mkCall f item new p s1 s2 st en false None None k t cn fe BAdd None 1 false TrT.
 
 (* (find 1 '(0 1 2) :test-not 'eql) => 0 (repaired: was a type-error) *)
-(* (member 1 '(1 2) :test-not 'eql) => type-error, the language says (2): member has its own keyword loop *)
+(* (member 1 '(1 2) :test-not 'eql) => (2) (repaired: was a type-error; member has its own keyword loop) *)
 Definition w_member_test_not := mk FMember 1 0 P0 (SList [1;2]) SNil None None None (TTestNot TEql) CAbsent false.
 Definition w_test_not := mk FFind 1 0 P0 (SList [0;1;2]) SNil None None None (TTestNot TEql) CAbsent false.
 (* (substitute 9 1 '(1 2) :test-not 'eql) => (1 9) (repaired: was (9 2), the keyword was ignored) *)
@@ -142,7 +142,7 @@ Definition w_remove_if_not := mk FRemoveIfNot 0 0 P0 (SList [0;1;2]) SNil None N
 Definition w_find_if_not := mk FFindIfNot 0 0 P0 (SVec [0;1;2]) SNil None None None TDefault CAbsent false.
 
 Definition refutation_witnesses : list call :=
-  [w_remove_if_not; w_find_if_not; w_member_test_not;
+  [w_remove_if_not; w_find_if_not;
    w_mismatch_from_end;
    w_fill_end; w_fill_start;
    w_reduce_empty; w_reduce_start; w_dups_from_end].
@@ -156,10 +156,10 @@ Lemma all_refuted : forallb refutes refutation_witnesses = true.
 Proof. vm_compute. reflexivity. Qed.
 
 Lemma refuted_values :
-  map m_call [w_member_test_not; w_mismatch_from_end; w_reduce_empty] =
-  [Some (RErr EType); Some (RInt 2); Some RNil] /\
-  map s_call [w_member_test_not; w_mismatch_from_end; w_reduce_empty] =
-  [Some (RSeq [2]); Some (RInt 3); Some (RElt 0)].
+  map m_call [w_mismatch_from_end; w_reduce_empty] =
+  [Some (RInt 2); Some RNil] /\
+  map s_call [w_mismatch_from_end; w_reduce_empty] =
+  [Some (RInt 3); Some (RElt 0)].
 Proof. vm_compute. split; reflexivity. Qed.
 
 (* ---- repaired defects: the witnesses of the findings repaired in slip (repo_fixes/C14-n.patch) are now inside
@@ -172,7 +172,7 @@ Definition repaired_witnesses : list (call * res) :=
     (w_reduce_start_init, RElt 7); (w_some_value, RElt 2); (w_assoc_order, RSeq [2;0]);
     (w_merge_tie, RSeq [-1;1]); (w_subst_count, RSeq [0;9;0;1]); (w_subst_count0, RSeq [1;1]);
     (w_subst_count_neg, RSeq [1;1]); (w_dups_ne, RSeq [1]); (w_test_not, RElt 0);
-    (w_subst_test_not, RSeq [1;9]) ].
+    (w_subst_test_not, RSeq [1;9]); (w_member_test_not, RSeq [2]) ].
 Definition repaired_ok (cr : call * res) : bool :=
   in_domain (fst cr) &&
   match m_call (fst cr), s_call (fst cr) with
@@ -268,8 +268,6 @@ Proof. intros lt k W xs. split; [exact (isort_stable lt k W xs)|exact (stable_un
 Lemma reverse_loops : forall l, m_reverse_list l = rev l /\ go_reverse l = rev l.
 Proof. intros l. split; [exact (m_reverse_is_rev l)|exact (go_reverse_is_rev l)]. Qed.
 
-Lemma test_not_refuted : refutes w_member_test_not = true.
-Proof. vm_compute. reflexivity. Qed.
 Lemma if_not_missing_refuted : refutes w_remove_if_not = true /\ refutes w_find_if_not = true /\
   m_call w_remove_if_not = Some (RErr EUndefined) /\ s_call w_remove_if_not = Some (RSeq [0]) /\ s_call w_find_if_not = Some (RElt 1).
 Proof. vm_compute. repeat split; reflexivity. Qed.
